@@ -86,7 +86,10 @@ CLIENT_RULE = ("real Client + real Agent driven through a scripted connection, m
                "random histories); fresh client pools per case (hook VerifResetClientPools); all histories to the depth bound "
                "over {Start(2 ids differing in one bit), Indicate, response, garbage, tick at / just after the deadline, "
                "scripted write failure, Close} for 3 configurations (exhaustive), plus long random histories (<= 125 "
-               "events, <= 12 ids, attempts 0..8, RTO changes); non-trivial = every case (each has a Start or a Close)")
+               "events, <= 12 ids, attempts 0..8, RTO changes); Do with the response inside Write / after Do waits / inside a Write "
+               "that then fails (dofail, dolate); two collector calls at once (ticks2); the default ticker collector with a "
+               "clock of the client's own, standing still or running ahead (realclock); non-trivial = every case (each has "
+               "a Start or a Close)")
 
 
 def _client_case(ops, impl):
@@ -391,7 +394,7 @@ PROPS = {
     },
     "C13": {
         "modules": ["Stun.Properties.C13"],
-        "theorems": ["Stun.C13.exactly_one_terminal", "Stun.C13.step_spec", "Stun.C13.inv_init", "Stun.C13.after_close",
+        "theorems": ["Stun.C13.collect_twice", "Stun.C13.exactly_one_terminal", "Stun.C13.step_spec", "Stun.C13.inv_init", "Stun.C13.after_close",
                      "Stun.C13.start_ok_iff", "Stun.C13.stop_spec", "Stun.C13.process_spec", "Stun.C13.collect_spec",
                      "Stun.C13.close_spec"],
         "streams": ["agent-seq"],
